@@ -79,12 +79,19 @@ def build(profile):
         return _built[profile]
     d = _prepare_build_dir()
     t0 = time.time()
-    p = subprocess.run(['cargo', 'build', '--offline', '--profile', profile, '--quiet'], cwd=d, env=_env(),
-                       stdout=subprocess.PIPE, stderr=subprocess.STDOUT, text=True)
+    env = _env()
+    cmd = ['cargo', 'build', '--offline', '--profile', profile, '--quiet']
+    if os.environ.get('VERIF_COV'):
+        # coverage measurement of the workloads (tools/coverage.py): same sources, nightly
+        # toolchain (its llvm-tools read the profiles), source-based coverage instrumentation
+        cmd = ['cargo', '+nightly'] + cmd[1:]
+        env['RUSTFLAGS'] = '-Cinstrument-coverage'
+        env['CARGO_TARGET_DIR'] = os.path.join(_build_dir(), 'target-cov')
+    p = subprocess.run(cmd, cwd=d, env=env, stdout=subprocess.PIPE, stderr=subprocess.STDOUT, text=True)
     if p.returncode != 0:
         tail = '\n'.join(p.stdout.splitlines()[-40:])
         raise Inconclusive('harness build failed (%s profile):\n%s' % (profile, tail))
-    exe = os.path.join(d, 'target', profile, 'svh')
+    exe = os.path.join(env['CARGO_TARGET_DIR'], profile, 'svh')
     _built[profile] = exe
     log('  built harness [%s] against %s in %.1fs' % (profile, REPO, time.time() - t0))
     return exe
